@@ -474,7 +474,7 @@ def fresh_oracle(P, W, op, calls, obs, stubs):
 # ----------------------------------------------------------------------------- history generation
 
 FULL = [
-    ("min", 1), ("min", 2), ("max", 7), ("min", 3), ("min", 4), ("max", 6),
+    ("min", 1), ("max", 1), ("min", 2), ("max", 7), ("min", 7), ("min", 3), ("min", 4), ("max", 6),
     ("st", 5, "<="), ("st", 2, ">="), ("stl", ((1, ">="), (5, "=="))), ("stbad", ((7, "<="),)),
     ("lb", 0, 1.0), ("ub", 1, 2.5), ("lb", 2, -1.0), ("ub", 0, None),
     ("solve", "auto", 0), ("solve", "SLSQP", 0), ("solve", "SLSQP", 1), ("solve", "trust-constr", 0),
@@ -482,13 +482,33 @@ FULL = [
     ("vars",), ("nvars",), ("bounds",),
 ]
 CORE = [
-    ("min", 1), ("max", 2), ("st", 5, "<="), ("st", 2, ">="), ("lb", 0, 1.0),
+    ("min", 1), ("max", 1), ("max", 2), ("st", 5, "<="), ("st", 2, ">="), ("lb", 0, 1.0),
     ("solve", "auto", 0), ("solve", "trust-constr", 0), ("solve", "SLSQP", 1), ("vars",),
 ]
 
 
-def histories(rng, thorough):
+METHODS = ["auto", "linprog", "highs", "highs-ds", "highs-ipm", "SLSQP", "trust-constr", "L-BFGS-B"]
+
+
+def resubmit_histories():
+    """the *identical* expression object passed to minimize / maximize again — same sense and flipped sense — and a
+    different object, with a solve before and after on every pair of methods (LP path and NLP path)"""
     hs = []
+    for t in (1, 7, 5, 2, 3):
+        other = 7 if t == 1 else 1
+        for o1, o2 in (("min", "max"), ("max", "min"), ("min", "min"), ("max", "max")):
+            for t2 in (t, other):
+                for m1 in METHODS:
+                    for m2 in METHODS:
+                        hs.append([(o1, t), ("solve", m1, 0), (o2, t2), ("solve", m2, 0)])
+            # with a constraint and a bound change in between
+            hs.append([(o1, t), ("st", 5, "<="), ("solve", "auto", 0), (o2, t), ("lb", 0, 1.0), ("solve", "auto", 0),
+                       (o1, t), ("solve", "linprog", 0)])
+    return hs
+
+
+def histories(rng, thorough):
+    hs = resubmit_histories()
     for n in (1, 2):
         hs += [list(p) for p in itertools.product(FULL, repeat=n)]
     # length 3 over the full alphabet with an objective first (the other prefixes raise NoObjective / do nothing)
@@ -568,8 +588,9 @@ def regression_f22(W, stubs, rep):
 def run(ctx) -> core.Report:
     rng = ctx["rng"]
     thorough = ctx["tier"] == "thorough" or ctx["escalate"]
-    rep = core.Report(rule="all operation sequences of length ≤ 2 over a 25-operation alphabet, length 3 after each objective, "
-                           "lengths 3–4 (+ sample of 5; thorough: all of 5) over a 9-operation core alphabet, seeded random "
+    rep = core.Report(rule="all operation sequences of length ≤ 2 over a 27-operation alphabet, length 3 after each objective, "
+                           "lengths 3–4 (+ sample of 5; thorough: all of 5) over a 10-operation core alphabet, re-submission of "
+                           "the identical objective object (same / flipped sense) between solves on every pair of 8 methods, seeded random "
                            "histories of length 6–14 (thorough 6–24); non-trivial = distinct histories with a solve after an "
                            "edit (objective / sense / constraint / bound) made after some cache was populated")
     W = World()
